@@ -760,7 +760,12 @@ void vk_wtrap_finish(void)
 		/* not a global symbol start: ask nm for the nearest (possibly local) symbol */
 		char local[128] = "", cmd[128]; snprintf(cmd, sizeof cmd, "nm -n /proc/%d/exe", getpid());
 		FILE *f = popen(cmd, "r"); char line[256];
-		while (f && fgets(line, sizeof line, f)) { unsigned long a; char ty, nm[160]; if (sscanf(line, "%lx %c %159s", &a, &ty, nm) == 3 && a <= wt_log[i].addr) snprintf(local, sizeof local, "%s+0x%lx", nm, (unsigned long)(wt_log[i].addr - a)); else if (a > wt_log[i].addr) break; }
+		while (f && fgets(line, sizeof line, f)) {
+			unsigned long a = 0; char ty = 0, nm[160];
+			if (sscanf(line, "%lx %c %159s", &a, &ty, nm) != 3) continue;
+			if (a > wt_log[i].addr) break;
+			if (ty == 'd' || ty == 'D' || ty == 'b' || ty == 'B') snprintf(local, sizeof local, "%s+0x%lx", nm, (unsigned long)(wt_log[i].addr - a));
+		}
 		if (f) pclose(f);
 		char key[200]; snprintf(key, sizeof key, "static_write:%s", local[0] ? local : (sn ? sn : "?"));
 		for (char *c = key; *c; c++) if (*c == '+') { *c = 0; break; }
